@@ -91,7 +91,7 @@ theorem updBlobber_frame {s s' : State} {i : Nat} {c p : Option Nat} (h : updBlo
 theorem killBlobber_frame {s s' : State} {i n : Nat} {d : Bool} (h : killBlobber s i n d = .ok s') : Frame s s' := by
   unfold killBlobber at h; ok_branches h <;> exact ⟨rfl, rfl⟩
 
-theorem shutBlobber_frame {s s' : State} {i : Nat} {d : Bool} (h : shutBlobber s i d = .ok s') : Frame s s' := by
+theorem shutBlobber_frame {s s' : State} {i n : Nat} {d : Bool} (h : shutBlobber s i n d = .ok s') : Frame s s' := by
   unfold shutBlobber at h; ok_branches h <;> exact ⟨rfl, rfl⟩
 
 theorem killValidator_frame {s s' : State} {i n : Nat} {d : Bool} (h : killValidator s i n d = .ok s') : Frame s s' := by
